@@ -277,15 +277,21 @@ func ruleWritePath(c *Ctx, r *Report) {
 	}
 	if wfn := c.need(r, rule, "(*dtls.Conn).writeApplicationData"); wfn != nil {
 		n := 0
-		for _, b := range wfn.Blocks {
-			for _, in := range b.Instrs {
+		var unitInstrs []ssa.Instruction
+		for _, u := range c.unitFuncs(wfn) {
+			for _, b := range u.Blocks {
+				unitInstrs = append(unitInstrs, b.Instrs...)
+			}
+		}
+		for _, blk := range [][]ssa.Instruction{unitInstrs} {
+			for _, in := range blk {
 				st, ok := in.(*ssa.Store)
 				if !ok {
 					continue
 				}
 				if o, f, _, ok := fieldOfAddr(st.Addr); ok && o == "pkg/protocol/recordlayer.Header" && f == "Epoch" {
 					n++
-					ls := c.Origins(st.Val, 0)
+					ls := c.OriginsIP(st.Val, 0)
 					r.Check(allLeaves(ls, func(v ssa.Value) bool { return isCallResult(v, nameHasSuffix("Common).LocalEpoch")) }), rule, short(wfn)+":epoch", c.ipos(in), "record epoch = LocalEpoch()", "application records are stamped with an epoch that is not the current local epoch: "+c.describeAll(ls))
 				}
 			}
